@@ -24,6 +24,7 @@ import Driver.IoRead
 import Driver.Routing
 import Driver.ChanRouting
 import Driver.PendingDetach
+import Driver.Chunks
 
 structure DState where
   sess : Amqp.Session.St := Amqp.Session.init 0 0 0
@@ -64,6 +65,7 @@ def handle (st : DState) (line : String) : DState × String :=
     | some (s, out) => ({ st with reasm := s }, out)
     | none => (st, "bad-op")
   | "B" :: ws => (st, (Driver.PendingDetach.step ws).getD "bad-op")
+  | "O" :: ws => (st, (Driver.Chunks.step ws).getD "bad-op")
   | "J" :: ws =>
     match Driver.ChanRouting.step st.chans ws with
     | some (s, out) => ({ st with chans := s }, out)
